@@ -130,7 +130,7 @@ func docShape(i int, pfx string) *JV {
 	panic("docShape")
 }
 
-const nValShapes = 8
+const nValShapes = 9
 
 func valShape(i int, pfx string) *JV {
 	switch i {
@@ -150,6 +150,9 @@ func valShape(i int, pfx string) *JV {
 		return &JV{K: JArr, Kids: []*JV{}}
 	case 7:
 		return jBool(true)
+	case 8:
+		// number literals an operation value must carry verbatim: upper-case exponent, out of float64 range, -0
+		return jArr(litNum(pfx+"v", 5), litNum(pfx+"v", 3), jObj().with("m", litNum(pfx+"v", 1)))
 	}
 	panic("valShape")
 }
@@ -165,9 +168,11 @@ func chooseMask(name string, mask, n int) int {
 	return idx[vx.Choose(name, len(idx))]
 }
 
-// genTok builds one reference token. kinds (bits of tokMask): 0 = one symbolic byte, 1 = two, 2 = "a~0b", 3 = "c~1d", 4 = three symbolic bytes, 5 = "a", 6 = ~0/~1 optionally followed by 0/1.
+var numLookalikes = []string{"0x1", "0b1", "0o1", "1e0", "1_0", " 1"}
+
+// genTok builds one reference token. kinds (bits of tokMask): 0 = one symbolic byte, 1 = two, 2 = "a~0b", 3 = "c~1d", 4 = three symbolic bytes, 5 = "a", 6 = ~0/~1 optionally followed by 0/1, 7 = a number look-alike (0x1, 0b1, 1e0, 1_0 ...).
 func genTok(name string, tokMask int) Tok {
-	switch chooseMask(name+".kind", tokMask, 7) {
+	switch chooseMask(name+".kind", tokMask, 8) {
 	case 0:
 		b := []byte{symTokByte(name + ".0")}
 		return Tok{Raw: b, Name: b}
@@ -194,6 +199,11 @@ func genTok(name string, tokMask int) Tok {
 			nm = append(nm, byte('0'+tail-1))
 		}
 		return Tok{Raw: raw, Name: nm}
+	case 7:
+		// spellings that look like numbers to a lenient parser (base prefixes, octal-looking, underscores, exponent,
+		// sign, surrounding space) but name no array location: on an array every one of them is an error
+		b := []byte(numLookalikes[vx.Choose(name+".look", len(numLookalikes))])
+		return Tok{Raw: b, Name: b}
 	}
 	panic("genTok")
 }
@@ -223,7 +233,11 @@ func genOp(name string, kindMask, minTok, maxTok, tokMask, nVals int) Op {
 	op.Path = genPtr(name+".path", minTok, maxTok, tokMask)
 	switch op.Kind {
 	case OpAdd, OpReplace, OpTest:
-		op.Val = valShape(vx.Choose(name+".val", nVals), name+".")
+		if vm := vx.ParamOr("valmask", 0); vm != 0 {
+			op.Val = valShape(chooseMask(name+".val", vm, nValShapes), name+".")
+		} else {
+			op.Val = valShape(vx.Choose(name+".val", nVals), name+".")
+		}
 		op.HasVal = true
 	case OpMove, OpCopy:
 		op.From = genPtr(name+".from", minTok, maxTok, tokMask)
